@@ -117,6 +117,7 @@ def cycle(d, prefix, root, loaded=False):
     finally:
         d.date = keep
     t1, _ = xmlutil.text_to_sx(g1)
+    t1 = xmlutil.sort_attrs(t1)
     try:
         d2 = load_text(g1, prefix, root)
     except Exception:  # noqa: BLE001
@@ -140,6 +141,7 @@ def cycle(d, prefix, root, loaded=False):
         notes += " bytes-differ-G1-G2"
     t2, _ = xmlutil.text_to_sx(g2)
     t3, _ = xmlutil.text_to_sx(g3)
+    t2, t3 = xmlutil.sort_attrs(t2), xmlutil.sort_attrs(t3)
     # well-formedness and namespace of every element of G1
     uri = (d.ns or {}).get(d.xtce_ns_prefix) if d.ns else None
     for el in ET.fromstring(g1).iter():
